@@ -442,7 +442,12 @@ func (g *Gen) Fill(v reflect.Value, depth int, allowBad bool) {
 		nb := (nbits + 7) / 8
 		bs.Bytes = g.Bytes(nb)
 		if nbits%8 != 0 && nb > 0 {
-			bs.Bytes[nb-1] &= byte(0xff << (8 - uint(nbits%8)))
+			if g.R.Intn(2) == 0 {
+				bs.Bytes[nb-1] &= byte(0xff << (8 - uint(nbits%8))) // clean padding
+			} else {
+				bs.Bytes[nb-1] |= byte(1 << uint(g.R.Intn(8-nbits%8))) // a padding bit set: still marshalable
+				g.hit("bits:dirty-padding")
+			}
 		}
 		bs.BitLength = uint64(nbits)
 		v.Set(reflect.ValueOf(bs))
